@@ -157,6 +157,7 @@ type watchState struct {
 	armed   bool // InsertWatch: armed once its transaction has committed
 	survivedAbort bool
 	changedByCommit bool
+	noopSince bool // a commit holding the table without a successful write to it happened since the channel was handed out
 }
 
 type event struct {
@@ -202,6 +203,7 @@ type initWatch struct {
 	table int
 	closedSeen bool
 	satisfied bool
+	regSince bool // a new initializer was registered (committed) on the table since
 }
 
 type hookObs struct {
@@ -238,6 +240,9 @@ type interp struct {
 	gcRuns  int
 	step    int
 	res     result
+	obs     *observer
+	modelTuples [][]uint64
+	obsPos  int
 }
 
 // Options select behaviour that differs between the property tests.
@@ -331,6 +336,16 @@ func run(c Case, own string, opt Options) result {
 	if c.GC {
 		in.db.VerifSetGCRateLimitInterval(gcInterval)
 		in.db.Start()
+	}
+	in.recordModelTuple()
+	if !c.GC && !opt.Trace && (own == "C02" || own == "C06" || own == "C19") {
+		// a free-running observer goroutine (not inside synctest bubbles: it spins)
+		in.obs = newObserver(in)
+		defer func() {
+			if in.obs != nil {
+				in.obs.close()
+			}
+		}()
 	}
 	func() {
 		defer func() {
@@ -1057,6 +1072,7 @@ func (in *interp) commit(w *wtxn) {
 	in.lastFinished, in.lastFinishedLocked, in.lastWrote = w.txn, w.locked, w.wrote
 	in.cur = post
 	in.seq++
+	in.recordModelTuple()
 	multi := 0
 	for t := range w.locked {
 		if w.wrote[t] {
@@ -1148,6 +1164,18 @@ func (in *interp) commit(w *wtxn) {
 		ws.armed = true
 		ws.base = post.tables[ws.table]
 		in.watches = append(in.watches, ws)
+	}
+	for _, ws := range in.watches {
+		if w.locked[ws.table] && !w.wrote[ws.table] {
+			ws.noopSince = true
+		}
+	}
+	for _, iw := range in.iwatches {
+		for _, f := range w.newFns {
+			if f.table == iw.table {
+				iw.regSince = true
+			}
+		}
 	}
 	// ---- C06 (b): no missed change
 	for _, ws := range in.watches {
@@ -1620,6 +1648,10 @@ func (in *interp) lastNoopCommit(t int) bool {
 
 func (in *interp) boundary() {
 	in.hookChecks("operation boundary")
+	if in.obs != nil {
+		in.obs.publish()
+		in.drainObserver()
+	}
 	if in.res.err != nil || in.res.foreign != "" {
 		panic(stopCase{})
 	}
